@@ -443,6 +443,9 @@ def make_report(drv, inj):
             return RW.luba_event_received([inj["value"]])
         if k == "error":
             return RW.luba_event((2 << 6) | 63, [])
+        if k == "txerr":
+            # ADD DALI FRAME response carrying an error code only (type 0x33, one payload byte): yields no item
+            return RW.luba_frame(0x33, [inj.get("code", 3)])
     elif drv == "sci":
         if k == "forward":
             nb = inj["bits"] // 8
